@@ -311,6 +311,21 @@ func init() {
 		for _, cm := range cr.Complaints {
 			c.Fail("C03."+cm.Clause, "%s\n%s", cm.Detail, desc())
 		}
+		backendSentEmptyCompressed := func() bool {
+			if obs.SrvResp == nil {
+				return false
+			}
+			out := obs.SrvResp.Encode()
+			if obs.SrvResp.Form.Enveloped() {
+				return wire.CountFlaggedEmpty(out.Body) > 0
+			}
+			ce := out.Header.Get("Content-Encoding")
+			return len(out.Body) == 0 && ce != "" && ce != "identity" // an empty body declared compressed: relayed as it came
+		}
+		if cr.FlaggedEmpty > 0 && !backendSentEmptyCompressed() {
+			// the backend sent no such frame: the transcoder declared a message compressed and sent zero bytes for it
+			c.Fail("C03.resp.envelope.empty-flagged-compressed", "%d message frame(s) carry the compressed flag over zero bytes, which is not a valid compressed stream (real clients fail to decompress it)\n%s", cr.FlaggedEmpty, desc())
+		}
 		if rec.ExcessWrite {
 			c.Fail("C03.body-exceeds-content-length", "response body exceeds its declared Content-Length %d\n%s", rec.DeclaredCL, desc())
 		}
